@@ -1203,6 +1203,67 @@ def dtorguards(run, fx):
         run.held('OWNFIELD', inst, '', '%d releases in destructors; guards on other members only where tabled (%d)' % (n, len(DTOR_GUARDS_OK)))
 
 
+def nullleak(run, fx):
+    """OWNFIELD, the mirror of FREENULL: a member function that has put a fresh allocation into one of the object's fields does not
+    overwrite that field with null (or another fresh allocation) without releasing what it holds: on every path from the store of the
+    allocation to a later `field = 0`, a free / delete of the field (or of the local the allocation was made into) is passed.  The
+    object's destructor only sees the null."""
+    from .util import reaches_avoiding
+    fresh = fresh_returning(fx)
+    n, bad = 0, None
+    for fn in fx.all_fns():
+        if not fn.f.get('cls') or fn.f.get('implicit') or not fn.file.startswith('src/') or fn.q.split('::')[-1].startswith('~'):
+            continue
+        els = [e for _, e in fn.elements()]
+        # locals that hold a fresh allocation
+        fl = {}
+        for e in els:
+            if e['k'] == 'DeclStmt':
+                for d in e.get('decls', []):
+                    if d.get('init') is not None and '*' in (d.get('t') or ''):
+                        r = fn.strip_all_casts(fn.N(d['init']))
+                        if (r['k'] == 'CXXNewExpr' and not r.get('nplace')) or (r.get('fq') or '').split('<')[0] in ALLOC_FNS or (r['k'] in CALL_KINDS and r.get('fq') in fresh):
+                            fl[d['vid']] = d['n']
+        for e in els:
+            if e['k'] != 'BinaryOperator' or e.get('op') != '=':
+                continue
+            l = fn.strip(e['c'][0])
+            if l['k'] != 'MemberExpr' or l.get('dk') != 'Field' or fn.render(fn.N(l['c'][0])) != 'this' or '*' not in (l.get('t') or ''):
+                continue
+            r = fn.strip_all_casts(fn.N(e['c'][1]))
+            src = None
+            if (r['k'] == 'CXXNewExpr' and not r.get('nplace')) or (r.get('fq') or '').split('<')[0] in ALLOC_FNS:
+                src = None, fn.render(l)
+            elif r['k'] == 'DeclRefExpr' and r.get('vid') in fl:
+                src = r['vid'], fn.render(l)
+            if src is None:
+                continue
+            n += 1
+            ftxt = fn.render(l)
+            nulls = [u for u in els if u['k'] == 'BinaryOperator' and u.get('op') == '=' and fn.render(fn.strip(u['c'][0])) == ftxt and fn.is_null(u['c'][1]) and u is not e]
+            rel = []
+            for u in els:
+                a = None
+                if u['k'] == 'CXXDeleteExpr' and u.get('c'):
+                    a = u['c'][0]
+                elif u['k'] == 'CallExpr' and (u.get('fq') or '') in ('free', 'realloc') and u.get('args'):
+                    a = u['args'][0]
+                if a is not None and any((x['k'] == 'MemberExpr' and fn.render(x) == ftxt) or (x['k'] == 'DeclRefExpr' and x.get('vid') == src[0] and src[0] is not None) for x in fn.walk(a)):
+                    rel.append(u)
+            for u in nulls:
+                if reaches_avoiding(fn, e, u, avoid=rel):
+                    bad = bad or (fn, e, u, ftxt)
+    inst = 'an allocation stored into a field is released before the field is nulled'
+    if n < 5:
+        run.broken('OWNFIELD', inst, 'only %d stores of fresh allocations into fields seen' % n)
+    elif bad:
+        fn, e, u, ftxt = bad
+        run.violated('OWNFIELD', inst, fn.loc(u), '%s stores a fresh allocation into %s (%s) and can reach `%s` without freeing it: the block is lost -- the destructor finds a null field and nothing '
+                     'else points at it' % (fn.q.split('graphite2::')[-1], ftxt, fn.loc(e), fn.render(u)))
+    else:
+        run.held('OWNFIELD', inst, '', '%d stores of fresh allocations into fields; none is nulled on a path that has not released it' % n)
+
+
 def run(run):
     E = ER.setup(run)
     fx = E.fx
@@ -1228,6 +1289,11 @@ def run(run):
     guarded('OWNLOCAL', lambda: ownlocal(run, fx, None))
     guarded('OWNFIELD', lambda: codemove_exec(run, fx))
     guarded('OWNFIELD', lambda: dtorguards(run, fx))
+    guarded('OWNFIELD', lambda: nullleak(run, fx))
+    from . import c10 as c10_, c13 as c13_
+    from .util import OnlyRules as _Only
+    guarded('PRELOAD', lambda: c10_.optentry(_Only(run, ['OPTFLOW'], {'OPTFLOW': 'PRELOAD'}), fx))       # gr_face_preloadAll reaches the face from every constructor that takes options (shared with C10)
+    guarded('OWNFIELD', lambda: c13_.cmapbound(_Only(run, ['CMAPBOUND'], {'CMAPBOUND': 'OWNFIELD'}), fx))   # the cached cmap frees as many blocks as it allocates (shared with C13)
     if not run.cfg_tag and not run.cfg_map:
         guarded('OWNFIELD', lambda: logclose(run))
     from . import noescape
